@@ -114,6 +114,15 @@ CHECKS = {
          "check directive shapes, quoting, and that each candidate/completer appears exactly once. Three defects found this way "
          "were repaired (fix: commits).",
          "4/C15", "Rocq proof (quote round-trip through a shell-word lexer, line discipline) + byte-exact differential of the renderers via hook + per-shell script lexers"),
+ "C14": ("proof", "PARTIAL. Theorems in coq/Props/C14.v: soundness of the two candidate filters (a flag/argument name is offered "
+         "only for an empty/`-` word, its exact short spelling or a `--` prefix of its first long name, and in its preferred "
+         "spelling; a command name only for a prefix or its short alias); the filters are tied to the code through the "
+         "cfg(bpaf_verif) hooks on 600 cases per run. The hint bookkeeping threaded through every parser is NOT modelled: "
+         "'always completion output', 'only visible names of the active command path, completer values or placeholders', "
+         "'no hidden / not-entered names' and completeness for fresh prefixes are decided by an oracle computed from the "
+         "definition's AST over every kind of partially typed line (prefixes of generated sentences + ``, `-`, `--`, name and "
+         "command prefixes, `--name` + value, `--name=b`), with value and shell completers.",
+         "4/C14", "Rocq proof of the candidate filters (partial) + AST-derived oracle on revision-0 completion output"),
 }
 
 NA_REASON = "check not built yet in this revision (machinery under construction; see DESIGN.md section 7 staging)"
